@@ -227,4 +227,16 @@ theorem allocLoop_some_iff (e : Nat) (acc : Bytes) (frags : List Frag) (buf : By
       · intro hh; simp at hh
       · intro hh; exact absurd hh.1.1.symm h
 
+/-- `allocate_pdu` reaches `pdu_from_flag` exactly when the datagram fits an IPv4 datagram and the loop succeeds -/
+theorem allocBuf_some_iff (s : Stream) (buf : Bytes) :
+    allocBuf s = some buf ↔ hdrSize s.first + s.total ≤ 65535 ∧ allocLoop 0 [] s.frags = some buf := by
+  unfold allocBuf
+  split
+  · constructor
+    · intro h; simp at h
+    · intro h; omega
+  · constructor
+    · intro h; exact ⟨by omega, h⟩
+    · intro h; exact h.2
+
 end Tins.Reasm
